@@ -329,6 +329,27 @@ def render_func(fs, info):
     return '\n'.join(lines) + '\n'
 
 
+class DeclSpec:
+    """Declaration of a function that is used only through its contract (the contract is proved in another unit)."""
+    def __init__(self, name, fname, csig, contract, proved_in):
+        self.name, self.fname, self.csig, self.contract, self.proved_in = name, fname, csig, contract, proved_in
+
+
+def render_decl(ds, info):
+    lines = [ds.csig]
+    clauses = []
+    for i, c in enumerate(ds.contract):
+        kind = c[0]
+        desc, expr = (c[1], c[2]) if kind == 'ensures' else ('', c[1])
+        lines.append('#line %d "contract/%s"' % (i + 1, ds.fname))
+        lines.append('__CPROVER_%s(%s)' % (kind, oneline(expr)))
+        clauses.append({'kind': kind, 'desc': desc, 'expr': oneline(expr)})
+    lines.append(';')
+    info['functions'][ds.fname] = {'file': '(contract only; proved in unit %s)' % ds.proved_in, 'lines': [0, 0], 'clauses': clauses,
+                                   'rules_fired': [], 'sha256_body': '', 'loop_contracts': 0}
+    return '\n'.join(lines) + '\n'
+
+
 class CopySpec:
     """Verbatim copy of a macro/table region from a header (plus optional rules)."""
     def __init__(self, name, file, start, end, rules=(), include_end=True, common=False):
@@ -387,6 +408,8 @@ def assemble(unit, template_path, specs, groups=None):
             return render_func(s, info)
         if isinstance(s, EnumSpec):
             return render_enum(s, info)
+        if isinstance(s, DeclSpec):
+            return render_decl(s, info)
         return render_copy(s, info)
 
     def sub(m):
